@@ -40,6 +40,55 @@ def gen_cases(ctx, label, n_inst, per_inst, only_domain):
             yield dict(text=text, na=ast['na'], m=v, ast=ast)
 
 
+def greedy_vectors(ast, rng, k):
+    """k random assignments that respect the upper quotas (students in random order take a random listed project
+    that still has room, or stay unassigned)"""
+    out = []
+    for _ in range(k):
+        pl, ll = {}, {}
+        m = [0] * ast['n1']
+        order = list(range(ast['n1']))
+        rng.shuffle(order)
+        for i in order:
+            opts = [p for g in ast['first'][i] for p in g]
+            rng.shuffle(opts)
+            if rng.random() < 0.15:
+                continue
+            for p in opts:
+                kk = ast['projects'][p - 1][2]
+                if pl.get(p, 0) < ast['projects'][p - 1][1] and ll.get(kk, 0) < ast['lecturers'][kk - 1][2]:
+                    m[i] = p
+                    pl[p] = pl.get(p, 0) + 1
+                    ll[kk] = ll.get(kk, 0) + 1
+                    break
+        out.append(m)
+    return out
+
+
+def gen_large(ctx, label):
+    """sparse instances with more than 256 / 1000 agents on one side (ids just above the base in the lists)"""
+    rng = ctx.rng(label + '/large')
+    bases = [256] + ([1000, 128, 512, 4096] if ctx.thorough else [])
+    for base in bases:
+        for side in (1, 2):
+            for na in (2, 3):
+                ast = instgen.gen_ast_large(rng, base, na=na, side=side)
+                text = instgen.render(ast)
+                for v in greedy_vectors(ast, rng, 12 if ctx.thorough else 4):
+                    yield dict(text=text, na=ast['na'], m=v, ast=ast, large=True)
+                # a matching that IS stable (common master list on the second side, serial dictatorship), and
+                # neighbours of it (one student dropped / moved to the next entry)
+                for rep in range(6 if ctx.thorough else (4 if side == 2 else 2)):
+                    ast = instgen.gen_ast_large(rng, base, na=na, side=side, master_list=True)
+                    text = instgen.render(ast)
+                    v = instgen.serial_dictatorship(ast)
+                    yield dict(text=text, na=ast['na'], m=v, ast=ast, large=True)
+                    nz = [i for i, p in enumerate(v) if p]
+                    if nz:
+                        i = rng.choice(nz)
+                        yield dict(text=text, na=ast['na'], m=v[:i] + [0] + v[i + 1:], ast=ast, large=True)
+
+
 def run_checker(inp):
     from matchingproblems.solver import fileIO
     with impl.tmpfile(inp['text']) as path:
@@ -68,9 +117,11 @@ class Checker(Relation):
     only_domain = False
 
     def cases(self, ctx):
-        if ctx.thorough:
-            return gen_cases(ctx, self.name, 400, 0, self.only_domain)
-        return gen_cases(ctx, self.name, 70, 30, self.only_domain)
+        for c in (gen_cases(ctx, self.name, 400, 0, self.only_domain) if ctx.thorough
+                  else gen_cases(ctx, self.name, 70, 30, self.only_domain)):
+            yield c
+        for c in gen_large(ctx, self.name):
+            yield c
 
     def observe(self, inp):
         return C.observe(run_checker, inp)
